@@ -1526,6 +1526,43 @@ fn find_query_semantics() {
             if got.as_ref().ok() != Some(&Ok(Some(want.clone()))) { println!("WITNESS {{\"clause\":\"ADD stores what the direct call stores\",\"query\":{:?},\"stored\":\"{:?}\",\"want\":\"{:?}\"}}", qs, got.map_err(|_| "panic"), want); return; }
         }
     }
+    // ---- SELECT RESOURCE: data on the text of a resource and data on the resource itself (AS METADATA) are different constraints;
+    //      a conjunction is the intersection of its parts in either order, and a constraint written twice is the constraint
+    {
+        let mut st = AnnotationStore::default();
+        for r in ["book", "memo", "note"] { st.add_resource(TextResourceBuilder::new().with_id(r).with_text("some text here")).unwrap(); }
+        // book: genre on the resource itself; memo: genre on its text; note: both; lang likewise the other way round
+        st.annotate(AnnotationBuilder::new().with_target(SelectorBuilder::resourceselector("book")).with_data("set", "genre", "novel")).unwrap();
+        st.annotate(AnnotationBuilder::new().with_target(SelectorBuilder::textselector("memo", Offset::simple(0, 4))).with_data("set", "genre", "novel")).unwrap();
+        st.annotate(AnnotationBuilder::new().with_target(SelectorBuilder::resourceselector("note")).with_data("set", "genre", "novel")).unwrap();
+        st.annotate(AnnotationBuilder::new().with_target(SelectorBuilder::textselector("note", Offset::simple(0, 4))).with_data("set", "genre", "novel")).unwrap();
+        st.annotate(AnnotationBuilder::new().with_target(SelectorBuilder::textselector("book", Offset::simple(5, 9))).with_data("set", "lang", "en")).unwrap();
+        st.annotate(AnnotationBuilder::new().with_target(SelectorBuilder::resourceselector("memo")).with_data("set", "lang", "en")).unwrap();
+        let resources = |q: &str| -> Result<Vec<String>, String> {
+            let query: Query = q.try_into().map_err(|e: StamError| format!("parse: {}", e))?;
+            let iter = st.query(query).map_err(|e| format!("query: {}", e))?;
+            let mut out = vec![];
+            for results in iter { for r in results.iter() { if let QueryResultItem::TextResource(x) = r { out.push(x.id().unwrap_or("?").to_string()); } } }
+            out.sort(); out.dedup();
+            Ok(out)
+        };
+        let cs = ["DATA AS METADATA set genre = novel", "DATA set genre = novel", "DATA AS METADATA set lang = en", "DATA set lang = en"];
+        let singles: Vec<Option<Vec<String>>> = cs.iter().map(|c| std::panic::catch_unwind(std::panic::AssertUnwindSafe(|| resources(&format!("SELECT RESOURCE ?r WHERE {};", c)))).ok().and_then(|r| r.ok())).collect();
+        // the scan: which resources carry the data on themselves / on their text
+        let scan = |key: &str, val: &str, meta: bool| -> Vec<String> { let mut v: Vec<String> = st.resources().filter(|r| { let anns: Vec<_> = if meta { r.annotations_as_metadata().collect() } else { r.annotations().collect() }; anns.iter().any(|a| a.data().any(|d| d.key().as_str() == key && d.value().to_string() == val)) }).map(|r| r.id().unwrap().to_string()).collect(); v.sort(); v };
+        let wants = [scan("genre", "novel", true), scan("genre", "novel", false), scan("lang", "en", true), scan("lang", "en", false)];
+        for i in 0..cs.len() {
+            if singles[i].as_ref() != Some(&wants[i]) { println!("WITNESS {{\"clause\":\"SELECT RESOURCE = a scan\",\"query\":{:?},\"got\":\"{:?}\",\"want\":\"{:?}\"}}", cs[i], singles[i], wants[i]); return; }
+        }
+        for i in 0..cs.len() { for j in 0..cs.len() {
+            let q = format!("SELECT RESOURCE ?r WHERE {}; {};", cs[i], cs[j]);
+            let want: Vec<String> = wants[i].iter().filter(|x| wants[j].contains(x)).cloned().collect();
+            match std::panic::catch_unwind(std::panic::AssertUnwindSafe(|| resources(&q))) {
+                Ok(Ok(got)) if got == want => {}
+                other => { println!("WITNESS {{\"clause\":\"conjunction = intersection, in either order (SELECT RESOURCE)\",\"query\":{:?},\"got\":\"{:?}\",\"want\":\"{:?}\"}}", q, other.map_err(|_| "panic"), want); return; }
+            }
+        }}
+    }
     println!("NO-WITNESS find_query_semantics");
 }
 
